@@ -350,6 +350,45 @@ class Engine:
                 self.oracle_checks += 1
                 if after != before:
                     self.fail(f"cli_decompress_clobbers_input:{variant}", f"`decompress arch.zst {target}` (the archive itself under another spelling): exit status {rc}; the archive ({len(before)} bytes) now has {len(after)} bytes", f"# ln -s . here; ln -s arch.zst latest.zst; mkdir sub; ruzstd-cli decompress arch.zst {target}")
+            # an output that cannot take the data (`/dev/full`: every write fails with ENOSPC): the tool must not report success
+            if os.path.exists("/dev/full"):
+                for level in (None, 0, 1):
+                    d = self.fresh()
+                    data = content(rnd, 2160, 2)
+                    open(os.path.join(d, "in.bin"), "wb").write(data)
+                    os.symlink("/dev/full", os.path.join(d, "full.zst"))
+                    args = ["compress", "in.bin", "full.zst"] + ([] if level is None else ["--level", str(level)])
+                    rc, panicked, _ = self.run(args, d)
+                    self.stat(f"compress:dev_full:exit={exit_class(rc)}")
+                    self.oracle_checks += 1
+                    if rc == 0:
+                        self.fail("cli_success_although_output_not_written", f"`{' '.join(args)}` with an output on which every write fails (/dev/full): exit status 0 — the archive was not written", "# ln -s /dev/full full.zst; ruzstd-cli " + " ".join(args))
+            # an input whose length is not known when it is opened (a named pipe): everything that arrives must be compressed
+            try:
+                import threading
+                d = self.fresh()
+                fifo = os.path.join(d, "pipe.in")
+                os.mkfifo(fifo)
+                data = content(rnd, 300000, 1)
+
+                def feed():
+                    try:
+                        with open(fifo, "wb") as f:
+                            for k in range(0, len(data), 7000):
+                                f.write(data[k:k + 7000])
+                    except OSError:
+                        pass
+                t = threading.Thread(target=feed, daemon=True)
+                t.start()
+                rc, panicked, _ = self.run(["compress", "pipe.in", "pipe.zst", "--level", "1"], d)
+                t.join(timeout=10)
+                self.stat(f"compress:fifo:exit={exit_class(rc)}")
+                self.oracle_checks += 1
+                outp = os.path.join(d, "pipe.zst")
+                if rc == 0 and not (os.path.exists(outp) and self.zstd_restores(outp, data)):
+                    self.fail("cli_pipe_input_truncated", f"`compress pipe.in pipe.zst` (a named pipe fed {len(data)} bytes): exit status 0 but the archive does not restore the data", "# mkfifo pipe.in; (head -c 300000 file > pipe.in &); ruzstd-cli compress pipe.in pipe.zst --level 1")
+            except (OSError, AttributeError):
+                self.notes.append("named pipes not available here: the pipe-input case was skipped")
             # no subcommand
             d = self.fresh()
             rc, panicked, _ = self.run([], d)
